@@ -22,6 +22,8 @@ checks = pos[2:] or [cid]
 wt, out = '%s/%s' % (base, cid), '%s/%s.out' % (base, cid)
 patch = '%s/change%s.diff' % (out, n)
 dst = '/verif/seeded/%s-%s' % (cid, n)
+if not os.path.exists(patch) and os.path.exists(dst + '/patch.diff'):
+    patch = dst + '/patch.diff'  # re-evaluation of a stored change
 def sh(cmd, cwd=None, timeout=7200):
     r = subprocess.run(cmd, shell=True, cwd=cwd, capture_output=True, text=True, timeout=timeout)
     return r.returncode, r.stdout + r.stderr
@@ -57,7 +59,7 @@ if confirm:
         print(o1[-600:]); print('---- without:'); print(o0[-600:])
 def store():
     os.makedirs(dst, exist_ok=True)
-    shutil.copy(patch, dst + '/patch.diff')
+    if os.path.abspath(patch) != os.path.abspath(dst + '/patch.diff'): shutil.copy(patch, dst + '/patch.diff')
     for f in glob.glob('%s/demo%s*' % (out, n)):
         if os.path.isfile(f): shutil.copy(f, dst + '/' + os.path.basename(f))
     rep = out + '/REPORT.md'
